@@ -343,6 +343,13 @@ impl HllSketch {
                         )));
                     }
 
+                    // A set only exists between the list and the array: its table never grows
+                    // beyond 2^(lg_config_k - 3) slots, at which point it is promoted.
+                    if lg_config_k < 8 || lg_arr > lg_config_k - 3 {
+                        return Err(Error::deserial(format!(
+                            "SET mode: lg_arr {lg_arr} is not valid for lg_k {lg_config_k}"
+                        )));
+                    }
                     let lg_arr = lg_arr as usize;
                     let set = HashSet::deserialize(cursor, lg_arr, compact)?;
                     Mode::Set { set, hll_type }
